@@ -303,7 +303,7 @@ fn c07_q_eval_initial_value_and_empty() {
 /// (two finished frames are popped at once).  Control is concrete; the call operands are symbolic.
 #[kani::proof]
 #[kani::unwind(10)]
-fn c07_q_eval_call_continues() {
+fn c07_t_eval_call_continues() {
     let enc = any_enc();
     let mask = mask_of(enc.address_size);
     // main: call2 x ; lit3 ; plus      A: lit4 ; call2 y      B: lit5 ; plus        => (4 + 5) + 3 = 12
@@ -339,7 +339,7 @@ fn c07_q_eval_call_continues() {
 /// an empty callee is skipped and the caller continues
 #[kani::proof]
 #[kani::unwind(10)]
-fn c07_q_eval_call_empty_callee() {
+fn c07_t_eval_call_empty_callee() {
     let enc = any_enc();
     let mask = mask_of(enc.address_size);
     let prog = prog![0x98, 0x34, 0x12, 0x33];
@@ -384,12 +384,12 @@ fn limit_across_calls(limit: u32, completes: bool) {
 }
 #[kani::proof]
 #[kani::unwind(12)]
-fn c07_q_eval_limit_across_calls_6() {
+fn c07_t_eval_limit_across_calls_6() {
     limit_across_calls(6, false);
 }
 #[kani::proof]
 #[kani::unwind(12)]
-fn c07_q_eval_limit_across_calls_7() {
+fn c07_t_eval_limit_across_calls_7() {
     limit_across_calls(7, true);
 }
 #[kani::proof]
